@@ -648,6 +648,96 @@ let run_mul mo jo impl secs =
          | _ -> ()) lines)
   | _ -> ()
 
+(* ---- CIX / CDY: the C interface ---- *)
+let ctype = function
+  | "int32" -> { kbits = zi 32; ksigned = true } | "int64" -> { kbits = zi 64; ksigned = true }
+  | "uint32" -> { kbits = zi 32; ksigned = false } | _ -> { kbits = zi 64; ksigned = false }
+
+let run_cix mo jo impl secs =
+  match secs with
+  | ("CIX" :: id :: ty :: eps :: _) :: _ ->
+    let kt = ctype ty in
+    let c = { c_kt = kt; c_eps = zin eps; c_epsrec = c_epsilon_recursive; c_fdouble = false; c_par = zi 1; c_avx512 = !avx512 } in
+    let data = List.map zin (nth_sec secs 1) and queries = List.map zin (nth_sec secs 2) in
+    pr mo "C %s\n" id;
+    (match build c data with
+     | Err ThrowInvalidArgument -> pr mo "B null\n"
+     | Err e -> pr mo "B %s\n" (err_name e)
+     | Ok ix ->
+       pr mo "B ok\n";
+       List.iter (fun q -> match search c ix q with
+         | Ok a -> pr mo "Q %s %s %s %s\n" (zout q) (zout a.a_pos) (zout a.a_lo) (zout a.a_hi)
+         | Err e -> pr mo "Q %s %s\n" (zout q) (err_name e)) queries);
+    (match Hashtbl.find_opt impl id with
+     | None -> ()
+     | Some lines ->
+       let sentinel = kmax kt in
+       let has_reserved = List.exists (fun d -> zout d = zout sentinel) data in
+       List.iter (fun toks -> match toks with
+         | ["B"; r] -> judge jo "C18" id ("create returned " ^ r ^ " (reserved value present: " ^ string_of_bool has_reserved ^ ")") ((r = "null") = has_reserved)
+         | _ -> judge_search jo "C18" id c.c_eps data sentinel toks) lines)
+  | _ -> ()
+
+let run_cdy mo jo impl secs =
+  match secs with
+  | ("CDY" :: id :: ty :: _) :: _ ->
+    let kt = ctype ty in
+    let cfg = { c_kt = kt; c_eps = zi 16; c_epsrec = zi 4; c_fdouble = false; c_par = zi 1; c_avx512 = !avx512 } in
+    let ops = idx_ops cfg in
+    let kmaxv = kmax kt and kminv = kmin kt in
+    let tomb = Some kmaxv in
+    let bulk_toks = nth_sec secs 1 in
+    let use_bulk = not (bulk_toks = ["-"]) in
+    let pairs = if use_bulk then List.map (fun t -> match split_colon t with [k; v] -> (zin k, zin v) | _ -> failwith "pair") bulk_toks else [] in
+    let kv (k, v) = " " ^ zout k ^ ":" ^ zout v in
+    pr mo "C %s\n" id;
+    let d0 = if use_bulk then dyn_bulk ops tomb kmaxv pairs (zi 8) Z0 Z0 else dyn_ctor tomb kmaxv (zi 8) Z0 Z0 in
+    (match d0 with
+     | Err ThrowInvalidArgument -> pr mo "B null\n"
+     | Err e -> pr mo "B %s\n" (err_name e)
+     | Ok d0 ->
+       pr mo "B ok\n";
+       let d = ref d0 in
+       List.iter (fun op ->
+         let fail e = pr mo "x %s %s\n" op (err_name e) in
+         match split_colon op with
+         | ["I"; k; v] -> (match insert_or_assign ops !d (zin k) (zin v) with Ok d1 -> d := d1; pr mo "i ok\n" | Err e -> fail e)
+         | ["E"; k] -> (match erase ops !d (zin k) with Ok d1 -> d := d1; pr mo "e ok\n" | Err e -> fail e)
+         | ["F"; k] -> (match dfind ops !d (zin k) with
+             | Ok (Some ((_, _), e)) -> pr mo "f %s %s:%s\n" k (zout e.it_key) (match e.it_val with Some v -> zout v | None -> "x")
+             | Ok None -> pr mo "f %s end\n" k | Err e -> fail e)
+         | ["T"; k] -> (match lower_bound ops !d (zin k) with
+             | Ok r -> (match to_list_from ops !d (iter_of r) with
+                 | Ok l -> pr mo "t %s%s\n" k (String.concat "" (List.map kv l)) | Err e -> fail e)
+             | Err e -> fail e)
+         | ["B"] -> (match dyn_begin ops !d kminv with
+             | Ok b -> (match to_list_from ops !d b with Ok l -> pr mo "b%s\n" (String.concat "" (List.map kv l)) | Err e -> fail e)
+             | Err e -> fail e)
+         | ["S"] -> (match dyn_size ops !d kminv with Ok r -> pr mo "s %s\n" (zout r) | Err e -> fail e)
+         | _ -> ()) (nth_sec secs 2));
+    (match Hashtbl.find_opt impl id with
+     | None -> ()
+     | Some lines ->
+       let m = ref (am_bulk pairs) in
+       let opsl = ref (nth_sec secs 2) in
+       let next_op () = match !opsl with o :: t -> opsl := t; split_colon o | [] -> [] in
+       let listing l = String.concat " " (List.map (fun (k, v) -> zout k ^ ":" ^ zout v) l) in
+       List.iter (fun toks -> match toks with
+         | ["i"; "ok"] -> (match next_op () with ["I"; k; v] -> m := am_insert (zin k) (zin v) !m | _ -> ())
+         | ["e"; "ok"] -> (match next_op () with ["E"; k] -> m := am_erase (zin k) !m | _ -> ())
+         | ["f"; k; res] -> ignore (next_op ());
+           let exp = match am_find (zin k) !m with Some v -> k ^ ":" ^ zout v | None -> "end" in
+           judge jo "C18" id ("find " ^ k ^ " = " ^ res ^ " expected " ^ exp) (res = exp)
+         | "t" :: k :: res -> ignore (next_op ());
+           let exp = listing (am_from (zin k) !m) in
+           judge jo "C18" id ("lower_bound+next from " ^ k ^ " = [" ^ String.concat " " res ^ "] expected [" ^ exp ^ "]") (String.concat " " res = exp)
+         | "b" :: res -> ignore (next_op ());
+           judge jo "C18" id ("begin+next = [" ^ String.concat " " res ^ "] expected [" ^ listing !m ^ "]") (String.concat " " res = listing !m)
+         | ["s"; res] -> ignore (next_op ());
+           judge jo "C18" id ("size = " ^ res ^ " expected " ^ string_of_int (List.length !m)) (res = string_of_int (List.length !m))
+         | _ -> ()) lines)
+  | _ -> ()
+
 let () =
   let mode = Sys.argv.(1) in
   let cases = Sys.argv.(2) and implf = Sys.argv.(3) and modelf = Sys.argv.(4) and judgef = Sys.argv.(5) in
@@ -662,6 +752,7 @@ let () =
     | "var" -> run_bkt mo jo impl secs; run_efi mo jo impl secs
     | "map" -> run_map mo jo impl secs
     | "mul" -> run_mul mo jo impl secs
+    | "capi" -> run_cix mo jo impl secs; run_cdy mo jo impl secs
     | _ -> failwith "unknown mode") (read_lines cases);
   Hashtbl.iter (fun prop (n, f) -> pr jo "JSUM %s %d %d\n" prop n f) jcount;
   close_out mo; close_out jo
